@@ -23,6 +23,7 @@ class Gate(object):
         self.tids = {}          # thread ident -> tid
         self.trace = []         # (tid, position) in the order released
         self.free_run = False
+        self._last = {}
 
     # -- called on the worker threads ------------------------------------------
     def _tracer(self, frame, event, arg):
@@ -31,8 +32,18 @@ class Gate(object):
         return None
 
     def _local(self, frame, event, arg):
-        if event == "line" and frame.f_lineno in self.gated[frame.f_code]:
-            self.point(frame.f_lineno)
+        if event == "line":
+            key = id(frame)
+            ln = frame.f_lineno
+            # CPython reports some statements twice in a row (e.g. `x = a() and b()` when the right operand
+            # is evaluated): a statement is one location, so an immediate repeat is not a new parking point
+            if self._last.get(key) == ln:
+                return self._local
+            self._last[key] = ln
+            if ln in self.gated[frame.f_code]:
+                self.point(ln)
+        elif event == "return":
+            self._last.pop(id(frame), None)
         return self._local
 
     def point(self, position):
